@@ -120,7 +120,7 @@ type agentModel struct {
 	gens    map[uint32]int
 	console []byte
 	seen    map[string]string // delivered name -> path an earlier accepted open was observed to use
-	tasks   []uint32 // outstanding request ids not yet used
+	tasks   []uint32          // outstanding request ids not yet used
 }
 
 func (a *agentModel) openEntries(fid uint32) []*entry {
